@@ -160,6 +160,13 @@ func init() {
 							if !bytes.Equal(tt.GetMessage(), v.Transaction.GetMessage()) || tt.Hash != v.Transaction.Hash {
 								c.Violate("C19", "wire-changes-transaction", what, info)
 							}
+						} else if v.Transaction.CreatedAt.UnixNano() == 0 {
+							// the wire form uses 0 for "no time stamp": a transaction created at the epoch instant is
+							// refused by every node alike (no value is produced, nothing diverges) - counted, not judged
+							c.Count("wire.no-value-produced(epoch-timestamp)")
+						} else {
+							c.Count("wire.trx-refused-on-the-way-back")
+							c.Violate("C19", "wire-refuses-transaction-it-produced", what+": TrxToProtoTrx accepted the transaction, ProtoTrxToTrx refuses its own output: "+err.Error(), info)
 						}
 					}
 				}
@@ -189,6 +196,12 @@ func init() {
 			v.Transaction.IssuerSignature = fill(c, ln, false)
 			v.Transaction.ReceiverSignature = fill(c, ln, false)
 			check(v, fmt.Sprintf("signatures len=%d", ln))
+		}
+		// subjects with white space and other characters a "sanitising" mapper might touch
+		for _, sub := range []string{" memo", "memo ", "transfer\n", "\tinvoice 42 \r\n", " ", "\n", "\t \t", "a\u00a0", "\u2003x\u2003", "\u0000", "a\u0000", "UPPER lower", "e\u0301", "\ufeffbom", "\"quoted\"", "a\\b", "%20", "<b>"} {
+			v := base()
+			v.Transaction.Subject = sub
+			check(v, fmt.Sprintf("subject %q", sub))
 		}
 		{
 			v := base()
